@@ -1,5 +1,6 @@
 import QcoVerif.Properties.C05
 import QcoVerif.Lemmas.BuilderSrc
+import QcoVerif.Lemmas.FacadeSrc
 /-
   C05 — tie to the SOURCE TEXT (DESIGN.md §2.3b).  Kept in a file of its own that nothing imports: a change of the translated
   source functions breaks THESE obligations only, not the build of the property files that import Properties/C05.lean.
@@ -31,5 +32,29 @@ theorem add_matches_source (g op : Val) (hg : g = .obj "Graph" 2 []) (hop : op =
 
 end BuilderSourceTie
 
+
+
+/-! ### the facade `DeclarativeCircuit` as written (Lemmas/FacadeSrc.lean; DESIGN.md §2.3b) -/
+
+section Facade
+open Qco.Py Qco.Gen.PySrc Qco.BuilderSrc Qco.FacadeSrc
+
+/-- **`add_sub_circuit`**: the sub-circuit is COPIED with the transfer table `{sub-circuit ↦ own structure}` (one entry, exactly this
+    one), the COPY is added to the structure and recorded, and the copy is what is returned. -/
+theorem facade_add_sub_circuit_matches_source (cp : Val) (hcp : cp = .obj "CircuitCompositeOperation" 8 []) :
+    let sub := Val.obj "CircuitCompositeOperation" 5 [("copy()", cp)]
+    callEffects builderEnv Decl_add_sub_circuit [declObj 1 (stObj 2 []) addedObj regObj, sub] =
+      [Val.tuple [.str "call", stObj 2 [], .str "add", cp],
+       Val.tuple [.str "call", addedObj, .str "append", cp]] ∧
+    callFn builderEnv Decl_add_sub_circuit [declObj 1 (stObj 2 []) addedObj regObj, sub] = cp :=
+  FacadeSrc.add_sub_circuit_matches_source cp hcp
+
+/-- the transfer table `add_sub_circuit` hands to `copy`: one pair, sub-circuit ↦ own structure. -/
+theorem facade_add_sub_circuit_lookup (sub st : Val) :
+    eval builderEnv (Vars.set (Vars.set [] "self" (declObj 1 st addedObj regObj)) "operation" sub)
+      (.call "dict_of" [.name "operation", .attr (.name "self") "_structure"]) = .list [.tuple [sub, st]] :=
+  FacadeSrc.add_sub_circuit_lookup sub st
+
+end Facade
 
 end Qco.C05
